@@ -23,6 +23,7 @@ type Clause struct {
 	File  string
 	Line  int
 	Free  bool // 'free' clause: assumed, never checked (listed as assumption)
+	FromType bool // inherited from the contract of a function type the function implements
 }
 
 type ParamDecl struct {
@@ -51,7 +52,11 @@ type Contract struct {
 	Line      int
 	Notes     []string
 	Abstract  bool // failures of safety obligations are not alarms (abstracted)
+	Partial   bool // like Abstract, and callee preconditions that are not discharged are undecided, not alarms;
+	// a callee's postcondition is then used only under its precondition (its frame is used regardless)
 	Thread    bool
+	FuncType  string // non-empty: this is the contract of the named function type (not of a function)
+	Implements string // name of the function type whose contract this function inherits
 	LockHeld  []string // requires lock tokens
 	GhostSets []*GhostSet
 }
@@ -142,7 +147,7 @@ var keywords = map[string]bool{
 	"lemma": true, "var": true, "hyp": true, "concl": true, "callassert": true, "nocanary": true,
 	"sweep": true, "note": true, "rule": true, "abstract": true, "free": true, "end": true, "thread": true,
 	"allocbound": true, "results": true, "atreturn": true, "guarded": true, "allocinit": true,
-	"writers": true,
+	"writers": true, "functype": true, "partial": true,
 }
 
 func (sp *Spec) parseFile(path string) error {
@@ -232,10 +237,15 @@ func (sp *Spec) parseFile(path string) error {
 			sp.Writers = append(sp.Writers, w)
 		case "end":
 			cur, curLemma, curRule = nil, nil, nil
-		case "func":
+		case "func", "functype":
 			curLemma, curRule = nil, nil
 			name, params := splitNameParams(rc.text)
-			cur = &Contract{Func: name, Params: params, Loops: map[int][]*Clause{}, File: path, Line: rc.line}
+			ftype := ""
+			if rc.kw == "functype" {
+				ftype = name
+				name = "type:" + name
+			}
+			cur = &Contract{Func: name, Params: params, Loops: map[int][]*Clause{}, File: path, Line: rc.line, FuncType: ftype}
 			if _, dup := sp.Contracts[name]; dup {
 				return fmt.Errorf("%s:%d: duplicate contract for %s", path, rc.line, name)
 			}
@@ -279,6 +289,11 @@ func (sp *Spec) parseFile(path string) error {
 		case "thread":
 			if cur != nil {
 				cur.Thread = true
+			}
+		case "partial":
+			if cur != nil {
+				cur.Partial = true
+				cur.Abstract = true
 			}
 		case "allocbound":
 			if cur != nil {
